@@ -24,7 +24,7 @@ RULE = (
 MANIFEST = {
     "text": "Search over molecules and relabelings with three oracles on the partition classes: label-independence (metamorphic), equitability (invariant: same colour and same neighbour-class multiset within a class) and closure under automorphisms computed by independent code. The deep family (long chains, rings with one label, combs) reaches refinement depths far beyond the repo corpus, where a capped or early-exiting refinement loop would show.",
     "note": "Trusted: abstract model; verified automorphisms from own search. The partition is not required to be the coarsest equitable one.",
-    "technique": "property-based testing: metamorphic + invariant + symmetry oracle (Hypothesis, 16 shards)",
+    "technique": "property-based testing: metamorphic + invariant + symmetry oracle (Hypothesis, 16 shards) + the same oracles on all coloured graphs n<=5/6 (exhaustive small scope)",
 }
 ASSUMPTIONS = ["automorphism enumeration is capped at 200 per case / bounded search budget"]
 
